@@ -5,6 +5,7 @@ export CATII_REPO="${VP_RUN_REPO:-/repo}"
 export VERIF_EVIDENCE_DIR="$PWD/.cache/thorough_evidence"
 mkdir -p "$VERIF_EVIDENCE_DIR"
 /venv/bin/python tools/translate.py && /venv/bin/python tools/buildext.py plain checked && (cd lean && lake build CatiiModel CatiiProofs CatiiProps) || exit 2
-for i in 01 02 03 04 05 06 07 08 09 10 11 12 13 14 15 16 17 18 19 20; do
+# THOROUGH_IDS="01 03 05" restricts the run to those checks
+for i in ${THOROUGH_IDS:-01 02 03 04 05 06 07 08 09 10 11 12 13 14 15 16 17 18 19 20}; do
   /usr/bin/time -f "C$i %es rc=%x" ./check C$i --tier thorough 2>&1 | grep -v "^KNOWN" | tail -4
 done
